@@ -1,4 +1,7 @@
 mod adict;
+mod connrec;
+mod image;
+mod dictops;
 mod gen;
 mod proj;
 mod rng;
@@ -31,6 +34,13 @@ fn main() {
     let code = match cmd.as_str() {
         "record-sessions" => sessions::record(&a),
         "replay-sessions" => sessions::replay(&a),
+        "record-conn" => connrec::record(&a),
+        "replay-conn" => connrec::replay(&a),
+        "truncate" => image::truncate(&a),
+        "image-write" => image::image_write(&a),
+        "image-sessions" => image::image_sessions(&a),
+        "record-dict" => dictops::record(&a),
+        "replay-dict" => dictops::replay(&a),
         _ => {
             eprintln!("unknown command {cmd:?}");
             2
